@@ -19,7 +19,6 @@ package rules2
 import (
 	"fmt"
 	"math/big"
-	"sort"
 	"strings"
 	"testing"
 
@@ -256,6 +255,9 @@ func c32Gen(rt *rapid.T, era Era) (*Case, bool) {
 			// placeholder tokens so that the size (fee) is an upper bound; the
 			// real token choice happens after the fee is known
 			ret.V.Coin = 1 << 40
+			for _, id := range c32Tokens {
+				ret.V.Assets = append(ret.V.Assets, AQ{id, new(big.Int).SetUint64(1 << 62)})
+			}
 			tx.CollRet = &ret
 			if rapid.Bool().Draw(rt, "totalColl") {
 				tx.TotalColl = u64p(1 << 40)
@@ -342,8 +344,8 @@ func c32Gen(rt *rapid.T, era Era) (*Case, bool) {
 	if hasRet {
 		tx.CollRet.V.Assets = retAssets
 		// the return must itself be a valid output: give it enough coin
-		min := outMinCoin(era, *p, *tx.CollRet) + p.MinUtxo
-		retCoin = min + rapid.Uint64Range(0, 2_000_000).Draw(rt, "retExtra")
+		minCoin := outMinCoin(era, *p, *tx.CollRet) + p.MinUtxo
+		retCoin = minCoin + rapid.Uint64Range(0, 2_000_000).Draw(rt, "retExtra")
 		tx.CollRet.V.Coin = retCoin
 	}
 	// target balance around the exact threshold
@@ -405,132 +407,194 @@ func TestC32(t *testing.T) {
 		"'runs scripts' = the witness set has at least one redeemer (Alonzo feesOK); for Dijkstra IsValid=false is applied on the decoded transaction the way the block decoder applies it",
 		"collateral balance = sum of collateral input coin minus the collateral return coin (Babbage collAdaBalance)")
 
+	// ---- deterministic boundary cases (also the minimal reproductions) ----------
+	for _, era := range []Era{Alonzo, Babbage, Conway, Dijkstra} {
+		for _, sc := range c32Scenarios(era) {
+			c32Evaluate(rec, sc, true, func(key, what string, cs any) { rec.Violation(key, what, cs) })
+		}
+	}
+
 	rec.Check(func(rt *rapid.T) {
 		era := []Era{Alonzo, Babbage, Conway, Dijkstra}[rapid.IntRange(0, 3).Draw(rt, "era")]
 		c, invalid := c32Gen(rt, era)
-		tx := c.Tx
-		v := c32Ref(tx, c.P)
-		dtx, raw, err := c32Decode(c, invalid)
-		if err != nil {
-			rec.Class(fmt.Sprintf("%s:decode_rejected:%s", era, errClass(err)))
-			return
-		}
-		if len(dtx.Collateral()) != v.NColl {
-			rt.Fatalf("harness: encoded %d collateral inputs, decoder reports %d", v.NColl, len(dtx.Collateral()))
-		}
-		st, err := c.state()
-		if err != nil {
-			rec.Class(fmt.Sprintf("%s:state_rejected:%s", era, errClass(err)))
-			return
-		}
-		pp := c.P.forEra(era)
-		rules := c32Rules(era)
-		sample := c32Sample(c, v, raw, invalid)
-
-		// distribution
-		rec.Class(fmt.Sprintf("%s:redeemers=%v", era, v.HasRedeemers))
-		if v.HasRedeemers {
-			mod := new(big.Int).Mod(v.Need, big.NewInt(100)).Sign() != 0
-			rec.Class(fmt.Sprintf("fee_x_pct_divisible_by_100=%v", !mod))
-			rec.Class("ref_sufficient=" + fmt.Sprint(v.Sufficient))
-			rec.Class("nonada:" + v.NonAdaNote)
-			rec.Class(fmt.Sprintf("ncoll_vs_max:%s", map[int]string{-1: "below", 0: "equal", 1: "above"}[cmpInt(v.NColl, int(c.P.MaxColl))]))
-			if v.NColl == 0 {
-				rec.Class("ncoll=0")
-			}
-			if tx.CollRet != nil {
-				rec.Class("has_collateral_return")
-			}
-			if !v.Sufficient && v.NColl > 0 {
-				rec.Class("insufficient_cause_if_accepted:" + c32InsufficientCause(v))
-			}
-		}
-		refOK := !v.HasRedeemers || (v.HasColl && v.Sufficient && v.AdaOnly && v.CountOK)
-		rec.Class(fmt.Sprintf("ref_all_ok=%v", refOK))
-
-		if v.HasRedeemers && v.NColl > 0 {
-			var cs []string
-			for _, in := range tx.Coll {
-				cs = append(cs, fmt.Sprintf("%d/%d", in.V.Coin, len(in.V.Assets)))
-			}
-			rec.NonTrivial(fmt.Sprintf("%s fee=%d pct=%d max=%d coll=%s ret=%s/%s", era, tx.Fee, c.P.CollPct, c.P.MaxColl,
-				strings.Join(cs, ","), v.Ret, v.NonAdaNote), sample)
-		}
-
-		fail := func(key, what string) {
-			rec.Fail(rt, key, what, sample)
-		}
-
-		// ---- single rules -----------------------------------------------------
-		if v.HasRedeemers {
-			e := rules.noColl(dtx, c.Slot, st, pp)
-			rec.Eval()
-			if e == nil && !v.HasColl {
-				fail(fmt.Sprintf("C32:%s:rule:no-collateral-inputs-accepted", era),
-					fmt.Sprintf("%s.UtxoValidateNoCollateralInputs accepts a transaction with redeemers and no collateral input", era))
-			}
-			if v.NColl > 0 {
-				e = rules.insufficient(dtx, c.Slot, st, pp)
-				rec.Eval()
-				rec.Class(fmt.Sprintf("rule_insufficient:lib_accepts=%v:ref=%v", e == nil, v.Sufficient))
-				if e == nil && !v.Sufficient {
-					cause := c32InsufficientCause(v)
-					fail(fmt.Sprintf("C32:%s:rule:insufficient-collateral-accepted:%s", era, cause),
-						fmt.Sprintf("%s.UtxoValidateInsufficientCollateral accepts: collateral inputs %s - return %s = balance %s, balance*100 = %s < fee*pct = %d*%d = %s (%s)",
-							era, v.SumIn, v.Ret, v.Bal, new(big.Int).Mul(v.Bal, big.NewInt(100)), tx.Fee, c.P.CollPct, v.Need, cause))
-				}
-				e = rules.nonAda(dtx, c.Slot, st, pp)
-				rec.Eval()
-				rec.Class(fmt.Sprintf("rule_nonada:lib_accepts=%v:%s", e == nil, v.NonAdaNote))
-				if e == nil && !v.AdaOnly && v.NonAdaJudged {
-					fail(fmt.Sprintf("C32:%s:rule:non-ada-collateral-accepted:%s", era, v.NonAdaNote),
-						fmt.Sprintf("%s.UtxoValidateCollateralContainsNonAda accepts collateral whose tokens are not (all) returned (%s)", era, v.NonAdaNote))
-				}
-			}
-			if rules.tooMany != nil {
-				e = rules.tooMany(dtx, c.Slot, st, pp)
-				rec.Eval()
-				if e == nil && !v.CountOK {
-					fail(fmt.Sprintf("C32:%s:rule:too-many-collateral-inputs-accepted", era),
-						fmt.Sprintf("%s.UtxoValidateTooManyCollateralInputs accepts %d collateral inputs, maximum %d", era, v.NColl, c.P.MaxColl))
-				}
-			}
-		}
-
-		// ---- full rule list ---------------------------------------------------
-		full := common.VerifyTransaction(dtx, c.Slot, st, pp, rulesFor(era))
-		rec.Eval()
-		if full != nil {
-			rec.Class(fmt.Sprintf("%s:full_rejects:ref_ok=%v", era, refOK))
-			rec.Class(fmt.Sprintf("%s:full_rejects:%s", era, errClass(full)))
-			if refOK {
-				rec.Class("over_rejection_total") // counted, never flagged
-			}
-			return
-		}
-		rec.Class(fmt.Sprintf("%s:full_accepts:ref_ok=%v", era, refOK))
-		if !v.HasRedeemers {
-			return
-		}
-		if !v.HasColl {
-			fail(fmt.Sprintf("C32:%s:full:no-collateral-inputs-accepted", era),
-				fmt.Sprintf("VerifyTransaction(%s rules) accepts a transaction with redeemers and no collateral input", era))
-		}
-		if !v.CountOK {
-			fail(fmt.Sprintf("C32:%s:full:too-many-collateral-inputs-accepted", era),
-				fmt.Sprintf("VerifyTransaction(%s rules) accepts %d collateral inputs although maxCollateralInputs is %d", era, v.NColl, c.P.MaxColl))
-		}
-		if !v.AdaOnly && v.NonAdaJudged {
-			fail(fmt.Sprintf("C32:%s:full:non-ada-collateral-accepted:%s", era, v.NonAdaNote),
-				fmt.Sprintf("VerifyTransaction(%s rules) accepts collateral whose tokens are not (all) returned (%s)", era, v.NonAdaNote))
-		}
-		if v.HasColl && !v.Sufficient {
-			cause := c32InsufficientCause(v)
-			fail(fmt.Sprintf("C32:%s:full:insufficient-collateral-accepted:%s", era, cause),
-				fmt.Sprintf("VerifyTransaction(%s rules) accepts: collateral inputs %s - return %s = balance %s; balance*100 = %s < fee*pct = %d*%d = %s (%s)",
-					era, v.SumIn, v.Ret, v.Bal, new(big.Int).Mul(v.Bal, big.NewInt(100)), tx.Fee, c.P.CollPct, v.Need, cause))
-		}
+		c32Evaluate(rec, c, invalid, func(key, what string, cs any) { rec.Fail(rt, key, what, cs) })
 	})
+}
+
+// c32Scenarios: hand-built phase-2-invalid transactions (fee 300001, one input
+// of 100 ada, one output) with collateral exactly at the interesting points.
+func c32Scenarios(era Era) []*Case {
+	mk := func(pct, max uint, coll []uint64, ret uint64, tokens bool) *Case {
+		p := defaultParams(era)
+		p.CollPct, p.MaxColl = pct, max
+		tx := &TxSpec{Era: era, Net: 0, Fee: 300_001}
+		tx.Ins = []In{{TxID: hash256([]byte("c32/in")), Ix: 0, Key: 0, V: Val{Coin: 100_000_000}}}
+		tx.Outs = []Out{{Addr: payAddr(0, 1), V: Val{Coin: 100_000_000 - tx.Fee}}}
+		lang := 1
+		if era >= Conway {
+			lang = 3
+		}
+		tx.Rdms = []Rdm{{Tag: 0, Index: 0, Mem: 1000, Steps: 1000}}
+		tx.RdmMap = era >= Conway
+		tx.Plutus = []PScript{{Lang: lang, Bytes: []byte{0x45, 1, 1, 0, 0x24, 0x99}}}
+		tx.CostModels = p.CostModels
+		tx.Invalid = era != Dijkstra
+		for i, v := range coll {
+			in := In{TxID: hash256([]byte("c32/coll")), Ix: uint32(i), Key: 2, V: Val{Coin: v}}
+			if tokens && i == 0 {
+				in.V.Assets = []AQ{{c32Tokens[0], big.NewInt(5)}}
+			}
+			tx.Coll = append(tx.Coll, in)
+		}
+		if ret > 0 && era >= Babbage {
+			tx.CollRet = &Out{Addr: payAddr(0, 2), V: Val{Coin: ret}}
+		}
+		return &Case{Tx: tx, P: p, SS: newStSpec(), Slot: 10}
+	}
+	// fee*150 = 45000150: floor/100 = 450001, exact need 450001.5
+	out := []*Case{
+		mk(150, 3, []uint64{450_001}, 0, false),                   // balance = floor(fee*pct/100): 1.5 lovelace short... accepted?
+		mk(150, 3, []uint64{450_002}, 0, false),                   // ceil: sufficient
+		mk(150, 3, []uint64{450_000}, 0, false),                   // below the floor
+		mk(150, 3, []uint64{200_000, 250_002}, 0, false),          // two inputs, sufficient
+		mk(150, 3, nil, 0, false),                                 // no collateral
+		mk(150, 2, []uint64{200_000, 200_000, 200_000}, 0, false), // 3 inputs, maximum 2
+		mk(150, 3, []uint64{5_000_000}, 0, true),                  // tokens, nothing returned
+	}
+	if era >= Babbage {
+		out = append(out,
+			mk(150, 3, []uint64{5_000_000}, 4_900_000, false), // inputs ample, balance 100000 < 450002
+			mk(150, 3, []uint64{5_000_000}, 4_549_998, false), // balance exactly 450002
+		)
+	}
+	return out
+}
+
+// c32Evaluate runs one case through the single rules and the whole rule list
+// and judges it against the reference; report is rec.Fail (rapid) or
+// rec.Violation (deterministic part).
+func c32Evaluate(rec *evi.Recorder, c *Case, invalid bool, report func(key, what string, cs any)) {
+	era := c.Tx.Era
+	tx := c.Tx
+	v := c32Ref(tx, c.P)
+	dtx, raw, err := c32Decode(c, invalid)
+	if err != nil {
+		rec.Class(fmt.Sprintf("%s:decode_rejected:%s", era, errClass(err)))
+		return
+	}
+	if len(dtx.Collateral()) != v.NColl {
+		panic(fmt.Sprintf("harness: encoded %d collateral inputs, decoder reports %d", v.NColl, len(dtx.Collateral())))
+	}
+	st, err := c.state()
+	if err != nil {
+		rec.Class(fmt.Sprintf("%s:state_rejected:%s", era, errClass(err)))
+		return
+	}
+	pp := c.P.forEra(era)
+	rules := c32Rules(era)
+	sample := c32Sample(c, v, raw, invalid)
+
+	// distribution
+	rec.Class(fmt.Sprintf("%s:redeemers=%v", era, v.HasRedeemers))
+	if v.HasRedeemers {
+		mod := new(big.Int).Mod(v.Need, big.NewInt(100)).Sign() != 0
+		rec.Class(fmt.Sprintf("fee_x_pct_divisible_by_100=%v", !mod))
+		rec.Class("ref_sufficient=" + fmt.Sprint(v.Sufficient))
+		rec.Class("nonada:" + v.NonAdaNote)
+		rec.Class(fmt.Sprintf("ncoll_vs_max:%s", map[int]string{-1: "below", 0: "equal", 1: "above"}[cmpInt(v.NColl, int(c.P.MaxColl))]))
+		if v.NColl == 0 {
+			rec.Class("ncoll=0")
+		}
+		if tx.CollRet != nil {
+			rec.Class("has_collateral_return")
+		}
+		if !v.Sufficient && v.NColl > 0 {
+			rec.Class("insufficient_cause_if_accepted:" + c32InsufficientCause(v))
+		}
+	}
+	refOK := !v.HasRedeemers || (v.HasColl && v.Sufficient && v.AdaOnly && v.CountOK)
+	rec.Class(fmt.Sprintf("ref_all_ok=%v", refOK))
+
+	if v.HasRedeemers && v.NColl > 0 {
+		var cs []string
+		for _, in := range tx.Coll {
+			cs = append(cs, fmt.Sprintf("%d/%d", in.V.Coin, len(in.V.Assets)))
+		}
+		rec.NonTrivial(fmt.Sprintf("%s fee=%d pct=%d max=%d coll=%s ret=%s/%s", era, tx.Fee, c.P.CollPct, c.P.MaxColl,
+			strings.Join(cs, ","), v.Ret, v.NonAdaNote), sample)
+	}
+
+	fail := func(key, what string) { report(key, what, sample) }
+
+	// ---- single rules -----------------------------------------------------
+	if v.HasRedeemers {
+		e := rules.noColl(dtx, c.Slot, st, pp)
+		rec.Eval()
+		if e == nil && !v.HasColl {
+			fail(fmt.Sprintf("C32:%s:rule:no-collateral-inputs-accepted", era),
+				fmt.Sprintf("%s.UtxoValidateNoCollateralInputs accepts a transaction with redeemers and no collateral input", era))
+		}
+		if v.NColl > 0 {
+			e = rules.insufficient(dtx, c.Slot, st, pp)
+			rec.Eval()
+			rec.Class(fmt.Sprintf("rule_insufficient:lib_accepts=%v:ref=%v", e == nil, v.Sufficient))
+			if e == nil && !v.Sufficient {
+				cause := c32InsufficientCause(v)
+				fail(fmt.Sprintf("C32:%s:rule:insufficient-collateral-accepted:%s", era, cause),
+					fmt.Sprintf("%s.UtxoValidateInsufficientCollateral accepts: collateral inputs %s - return %s = balance %s, balance*100 = %s < fee*pct = %d*%d = %s (%s)",
+						era, v.SumIn, v.Ret, v.Bal, new(big.Int).Mul(v.Bal, big.NewInt(100)), tx.Fee, c.P.CollPct, v.Need, cause))
+			}
+			e = rules.nonAda(dtx, c.Slot, st, pp)
+			rec.Eval()
+			rec.Class(fmt.Sprintf("rule_nonada:lib_accepts=%v:%s", e == nil, v.NonAdaNote))
+			if e == nil && !v.AdaOnly && v.NonAdaJudged {
+				fail(fmt.Sprintf("C32:%s:rule:non-ada-collateral-accepted:%s", era, v.NonAdaNote),
+					fmt.Sprintf("%s.UtxoValidateCollateralContainsNonAda accepts collateral whose tokens are not (all) returned (%s)", era, v.NonAdaNote))
+			}
+		}
+		if rules.tooMany != nil {
+			e = rules.tooMany(dtx, c.Slot, st, pp)
+			rec.Eval()
+			if e == nil && !v.CountOK {
+				fail(fmt.Sprintf("C32:%s:rule:too-many-collateral-inputs-accepted", era),
+					fmt.Sprintf("%s.UtxoValidateTooManyCollateralInputs accepts %d collateral inputs, maximum %d", era, v.NColl, c.P.MaxColl))
+			}
+		}
+	}
+
+	// ---- full rule list ---------------------------------------------------
+	full := common.VerifyTransaction(dtx, c.Slot, st, pp, rulesFor(era))
+	rec.Eval()
+	if full != nil {
+		rec.Class(fmt.Sprintf("%s:full_rejects:ref_ok=%v", era, refOK))
+		rec.Class(fmt.Sprintf("%s:full_rejects:%s", era, errClass(full)))
+		if refOK {
+			rec.Class("over_rejection_total") // counted, never flagged
+		}
+		return
+	}
+	rec.Class(fmt.Sprintf("%s:full_accepts:ref_ok=%v", era, refOK))
+	if !v.HasRedeemers {
+		return
+	}
+	if !v.HasColl {
+		fail(fmt.Sprintf("C32:%s:full:no-collateral-inputs-accepted", era),
+			fmt.Sprintf("VerifyTransaction(%s rules) accepts a transaction with redeemers and no collateral input", era))
+	}
+	if !v.CountOK {
+		fail(fmt.Sprintf("C32:%s:full:too-many-collateral-inputs-accepted", era),
+			fmt.Sprintf("VerifyTransaction(%s rules) accepts %d collateral inputs although maxCollateralInputs is %d", era, v.NColl, c.P.MaxColl))
+	}
+	if !v.AdaOnly && v.NonAdaJudged {
+		fail(fmt.Sprintf("C32:%s:full:non-ada-collateral-accepted:%s", era, v.NonAdaNote),
+			fmt.Sprintf("VerifyTransaction(%s rules) accepts collateral whose tokens are not (all) returned (%s)", era, v.NonAdaNote))
+	}
+	if v.HasColl && !v.Sufficient {
+		cause := c32InsufficientCause(v)
+		fail(fmt.Sprintf("C32:%s:full:insufficient-collateral-accepted:%s", era, cause),
+			fmt.Sprintf("VerifyTransaction(%s rules) accepts: collateral inputs %s - return %s = balance %s; balance*100 = %s < fee*pct = %d*%d = %s (%s)",
+				era, v.SumIn, v.Ret, v.Bal, new(big.Int).Mul(v.Bal, big.NewInt(100)), tx.Fee, c.P.CollPct, v.Need, cause))
+	}
 }
 
 func cmpInt(a, b int) int {
@@ -542,5 +606,3 @@ func cmpInt(a, b int) int {
 	}
 	return 0
 }
-
-var _ = sort.Strings
